@@ -705,7 +705,7 @@ func verifC10LoadOp(file []byte, rk, mk *string, kvs []verifC10KV) string {
 
 func TestVerifC10(t *testing.T) {
 	verifutil.Main(t, &verifutil.Harness{
-		ID: "C10", Exec: verifC10Exec, Gen: verifC10Gen, Quick: 2800, Thorough: 40000,
+		ID: "C10", Exec: verifC10Exec, Gen: verifC10Gen, Quick: 2900, Thorough: 40000,
 		Class: verifC10Class,
 	})
 }
